@@ -587,7 +587,8 @@ class Driver:
                 ids.append(sid)
                 kw = {} if pretty is None else dict(pretty=pretty)
                 limited(self.doc.save, arg, packaging=pk, **kw)
-                self.saved.append((self.fs.targets[sid], pk, arg))
+                # a later save of this history may reuse the target: remember a real argument (an in-place save passes None)
+                self.saved.append((self.fs.targets[sid], pk, arg if arg is not None else self.fs.targets[sid]))
                 o["saved_index"] = len(self.saved) - 1
             elif k == "clone":
                 opt_term = "OClone"
@@ -715,6 +716,26 @@ def step_case10(r):
 
 def step_case(r):
     return "mk (%s) (%s) (%s) (%s) (%s) (%s)" % (r["pre_fs"], r["pre"], r["op"], r["post_fs"], r["post"], r["out"])
+
+
+def probe_fx():
+    """which of the two late repairs (F35: Container.parts lists memory; F42: manifest.rdf listed = `is not None`) does the tree under
+    test carry?  Decided by behaviour, on two three-line scenarios; the model variant FX mirrors it"""
+    common.use_repo()
+    from odfdo import Document
+    d = Document("text")
+    d.del_part("Thumbnails/thumbnail.png")
+    f35 = "Thumbnails/thumbnail.png" not in d.container.parts
+    d = Document("text")
+    d.manifest.add_full_path("manifest.rdf")
+    b = io.BytesIO(); d.save(b)
+    f42 = "manifest.rdf" in zipfile.ZipFile(b).namelist()
+    return f35, f42
+
+
+def fx_header():
+    f35, f42 = probe_fx()
+    return "Definition FX := mkFx true true true true true true true true %s %s.\n" % ("true" if f35 else "false", "true" if f42 else "false"), (f35, f42)
 
 
 PKG_HEADER = """Require Import Package. From Coq Require Import List ZArith Bool Arith. Import ListNotations.
@@ -1057,7 +1078,8 @@ def run_check(prop, checker, layers, make_histories, key_of, tier, seed, replay,
         for i, r in enumerate(recs):
             cases.append((case_fn or step_case)(r)); where.append((hid, i))
             hist_ops[r["kind"]] = hist_ops.get(r["kind"], 0) + 1
-    bad, errors = common.run_shards((header or PKG_HEADER) + header_extra, cases, checker, prop.lower(), shard=shard) if cases else ({}, [])
+    fxh, fxv = fx_header()
+    bad, errors = common.run_shards((header or PKG_HEADER) + header_extra + fxh, cases, checker + " FX", prop.lower(), shard=shard) if cases else ({}, [])
     recmap = dict(done)
     violations, known_seen, seen_keys = [], [], set()
     known = {e["key"]: e for e in common.known_findings(prop)}
@@ -1103,7 +1125,8 @@ def run_check(prop, checker, layers, make_histories, key_of, tier, seed, replay,
         samples=samples, op_histogram=hist_ops, histories=len(done), histories_timed_out=sum(1 for _, e in failed if e == "timeout"),
         harness_failures=len(harness_failures), corpus_cases=len(corpus),
         fidelity_divergences=sum(1 for c in bad.values() if c == fidelity_code), fidelity_by_op=fid,
-        violation_keys=sorted(seen_keys), exhaustive=False)
+        violation_keys=sorted(seen_keys), exhaustive=False,
+        model_variant="FIXED" + ("" if fxv[0] else " without the repair of F35") + ("" if fxv[1] else " without the repair of F42"))
     if extra_cov.get("samples"):
         coverage["samples"] = coverage["samples"] + extra_cov.pop("samples")
     coverage.update(extra_cov)
